@@ -104,6 +104,13 @@ func (vc *VC) generateOnce() {
 		vc.sc.DeclConst(name, vc.sortOf(p.Type()))
 		vc.wf(st, name, p.Type())
 		vc.trusted[name] = true
+		if et, ok := typesPointerElem(p.Type()); ok {
+			if _, isStruct := structOf(et); isStruct {
+				// pointer parameters denote struct objects (or fields of them), not slice elements
+				vc.sc.Axiom(Eq(sx("okind", sx("root", name)), "0"))
+				vc.Assumed["pointer-to-struct parameters do not point into slice backing arrays"] = true
+			}
+		}
 		params = append(params, name)
 	}
 	var fvs []Term
